@@ -153,3 +153,61 @@ pub fn yield_cases(family: &'static str, corpus: &[crate::mcheck::Case], drivers
     }
     out
 }
+
+/// A corpus of programs drawn from the generators of the other properties (the same selection for every
+/// metamorphic family): all C08 nests of depth 1, the loop-around-two-trys nests, re-entered try statements,
+/// recursion from finally blocks, and strided selections of the C08 loop-with-pair, C06, C07, C18 and C05
+/// programs.  `scale` multiplies the strides (1 = the thorough selection).
+pub fn standard_corpus(scale: usize) -> Vec<crate::mcheck::Case> {
+    use crate::mcheck::Case;
+    let mut corpus: Vec<Case> = Vec::new();
+    for n in crate::c08::nests_of_depth(1) {
+        corpus.push(Case::new("c08", crate::c08::program(&[n])));
+    }
+    corpus.extend(crate::c08::loop_try_try_nests().into_iter().step_by(scale.max(1)).map(|n| Case::new("c08", crate::c08::program(&[n]))));
+    corpus.extend(crate::c08::reentered_after_abrupt_finally_exit());
+    corpus.extend(crate::c08::recursion_from_finally().into_iter().step_by(scale.max(1)));
+    corpus.extend(crate::c08::loop_with_pair_cases().into_iter().step_by(7 * scale.max(1)));
+    corpus.extend(crate::c06::cases_for_c04(false).into_iter().step_by(3 * scale.max(1)));
+    corpus.extend(crate::c07::cases_all(false).into_iter().step_by(5 * scale.max(1)));
+    corpus.extend(crate::c18::cases_for_c04(false).into_iter().step_by(scale.max(1)));
+    corpus.extend(crate::c05::cases_for_c04(false).into_iter().step_by(11 * scale.max(1)));
+    corpus
+}
+
+/// REPL law (C15): a program fed to one interpreter one top-level statement at a time prints what the whole
+/// program prints and ends as it ends (top-level declarations are globals, so every statement boundary of
+/// the top level is a place where a REPL user could have pressed return).
+pub fn piecewise_cases(family: &'static str, corpus: &[crate::mcheck::Case]) -> Vec<crate::mcheck::Case> {
+    let mut out = Vec::new();
+    for c in corpus {
+        if c.prog.len() < 2 || c.impl_src.is_some() || !c.prelude.is_empty() {
+            continue;
+        }
+        let mut k = crate::mcheck::Case::new(family, c.prog.clone());
+        k.modules = c.modules.clone();
+        k.opts = crate::diff::CmpOpts { trace: false, kind: c.opts.kind };
+        k.piecewise = true;
+        out.push(k);
+    }
+    out
+}
+
+/// Module law (C14): the statements of a program behave the same as the top-level code of an imported module
+/// (their globals are the module's, the built-ins are there, the code runs in a frame of its own) - the main
+/// program is just `import "zz_prog";`.
+pub fn as_module_cases(family: &'static str, corpus: &[crate::mcheck::Case]) -> Vec<crate::mcheck::Case> {
+    let mut out = Vec::new();
+    for c in corpus {
+        if c.impl_src.is_some() || !c.prelude.is_empty() {
+            continue;
+        }
+        let mut k = crate::mcheck::Case::new(family, c.prog.clone());
+        k.modules = c.modules.clone();
+        k.opts = crate::diff::CmpOpts { trace: false, kind: c.opts.kind };
+        k.impl_src = Some("import \"zz_prog\";\n".to_string());
+        k.impl_modules.insert("zz_prog".to_string(), print_program(&c.prog, false));
+        out.push(k);
+    }
+    out
+}
